@@ -20,6 +20,8 @@ ASSUMPTIONS = ["poll interleavings / fragmentation of the byte streams are not e
 TRUSTED = ["tokio oneshot delivers at most one value"]
 
 MUTANTS = [
+    {"name": "fanout-without-count-check", "file": "src/proxy/backend.rs", "old": "                        if v.len() != results.len() {", "new": "                        if v.is_empty() && !results.is_empty() {", "expect": "C08.D6:pairing-after-count-check"},
+    {"name": "fanout-replies-reversed", "file": "src/proxy/backend.rs", "old": "                        for (t, r) in v.into_iter().zip(results) {", "new": "                        for (t, r) in v.into_iter().rev().zip(results) {", "expect": "C08.D6:order-kept"},
     {"name": "need_flush-false-without-timer", "file": "src/common/batch.rs", "old": "        let mut flush = false;\n        match Pin::new(&mut self.flush_timer).poll_tick(cx) {", "new": "        if self.curr_wbuf_content_size < flush_size / 2 {\n            return false;\n        }\n        let mut flush = false;\n        match Pin::new(&mut self.flush_timer).poll_tick(cx) {", "expect": "C08.D5:need_flush"},
     {"name": "pop-back", "file": "src/proxy/backend.rs", "old": "                let mut task = match tasks.pop_front() {", "new": "                let mut task = match tasks.pop_back() {", "expect": "C08.D2:fifo-ops"},
     {"name": "drop-does-not-answer", "file": "src/proxy/command.rs", "old": "        self.try_send(Err(CommandError::Dropped));", "new": "        let _ = self.reply_sender.is_some();", "expect": "C08.D1"},
@@ -40,10 +42,12 @@ def run(ctx):
     ctx.rule("C08.D1", "send-once typestate: set_result / set_resp_result by value in all CmdTask impls; reply channel Option + take(); Drop answers Dropped; not Clone")
     ctx.rule("C08.D2", "FIFO discipline in handle_conn: only FIFO queue operations, one packet per task, popped packet is sent, one task popped per packet read and handled")
     ctx.rule("C08.D3", "failure drains: every error return drains all tasks into handle_conn_err (retry all or answer each); reconnect failure answers carried-over tasks")
+    ctx.rule("C08.D6", "multi-request fan-out: ReqTask::set_result answers every sub-task in every arm (no iteration can pass without set_result), pairs tasks and replies only after their counts were compared, and keeps their order")
     ctx.rule("C08.D5", "buffered requests are eventually flushed: with bytes pending, BatchState::need_flush answers false only after polling the flush timer (a wake-up is registered), and answers true when batching is disabled")
     ctx.rule("C08.D4", "session side: reply futures and replies are queued and consumed in FIFO order only, each handled command contributes one queued future, a popped reply is sent, and the write loop never reports completion without flushing")
     _session(ctx)
     _flush_liveness(ctx)
+    _fanout(ctx)
     _typestate(ctx)
     _fifo(ctx)
     _drains(ctx)
@@ -450,3 +454,32 @@ def _flush_liveness(ctx):
                     bad = (bb, "does not answer true")
         ctx.check(bad is None, "C08.D5", "need_flush:%s:bytes-pending" % v["name"], site(b, bad[0]) if bad else site(b), ok="false only after the flush timer was polled" if v["name"] != "Disabled" else "true",
                   bad="with bytes pending and strategy %s, need_flush %s: the buffered request is not flushed and nothing wakes the connection task up" % (v["name"], bad[1] if bad else ""))
+
+
+def _fanout(ctx):
+    from ..lib import lossy_ops, branch_conditions
+    F = ctx.F
+    cands = [b for b in F.all_bodies(bins=False) if b.path.endswith("::set_result") and "ReqTask" in b.path and b.path.startswith("<proxy::backend::") and not b.is_mock()]
+    if not ctx.floor("C08.D6", "ReqTask::set_result", len(cands), 1):
+        return
+    b = cands[0]
+    ctx.analysed(b)
+    du = DefUse(b)
+    dom = cfg.dominators(b)
+    sr = [bb for bb, t in b.calls() if (callee_decl(t) or "").endswith("CmdTask::set_result")]
+    if not ctx.floor("C08.D6", "inner set_result calls", len(sr), 5):
+        return
+    sk = loop_can_skip(b, sr)
+    ctx.check(not sk, "C08.D6", "every-sub-task-answered", site(b, sk[0][0]) if sk else site(b), ok="no loop over the sub-tasks can pass a task without answering it", bad="a loop over the sub-tasks (head bb%s) can go to the next task without calling set_result: that request gets no reply" % [h for h, _ in sk])
+    loops = {h for _, h in cfg.natural_loops(b)}
+    ctx.floor("C08.D6", "loops over sub-tasks", len(loops), 4)
+    zips = [(bb, t) for bb, t in b.calls() if (callee_decl(t) or callee_of(t) or "").endswith("::zip")]
+    for bb, t in zips:
+        guarded = False
+        for d, discr, val in branch_conditions(b, bb, dom):
+            sl = du.slice_operand(discr)
+            if sum(1 for c in list(sl.calls) + list(sl.decls) if c.rsplit("::", 1)[-1] == "len") >= 1 and (sl.binops & {"Ne", "Eq"}) and len([c for c, bbs in sl.calls.items() if c.rsplit("::", 1)[-1] == "len" for _ in bbs]) >= 2:
+                guarded = True
+        ctx.check(guarded, "C08.D6", "pairing-after-count-check", site(b, bb), ok="tasks and replies are zipped only after their counts were compared", bad="tasks and replies are zipped without comparing their counts: zip stops at the shorter list and the remaining requests get no reply")
+    bad_ad = [(callee_decl(t) or "").rsplit("::", 1)[-1] for bb, t in b.calls() if (callee_decl(t) or "").startswith("std::iter::Iterator::") and (callee_decl(t) or "").rsplit("::", 1)[-1] in ("rev", "skip", "take", "step_by", "skip_while", "take_while", "filter", "filter_map")]
+    ctx.check(not bad_ad, "C08.D6", "order-kept", site(b), ok="sub-tasks and replies are walked front to back, all of them", bad="the fan-out uses %s: replies are paired with other requests than the ones that produced them" % bad_ad)
